@@ -112,7 +112,7 @@ CHECKS = {
              "full congruence closure). Every set is replayed on the real unifier (outcome must be the model's), and "
              "random sets of up to 40 variables with packed spans, cyclic evidence (self-referential spans, cycles through several packed "
              "encodings), deep chains of nested constructors are validated by UnifyTrace.tla; every variable of the state, including "
-             "those the unifier allocated, must be known to the resulting forest.",
+             "those the unifier allocated, must be known to the resulting forest. The combination of two packed encodings is specified on its own (PackedMerge.tla: the common refinement of two span partitions; every input span's variable is tied to exactly the refined spans within it, re-based to its start): PackedGen enumerates every pair of encodings of <= 2/3 spans over 5/6 units, the real merge combines each, and PackedTrace.tla checks Inv_C14_Components/packed-merge.",
         note="""Packed encodings are outside the model's alphabet: for judgement sets that contain them only the order-independent post-conditions (termination, one expression, declared equalities, determinism) are evaluated.""",
         technique="TLA+ unifier model (powerset construction over fold orders) checked by TLC; replay into the real "
                   "unifier; TLC trace validation of projected forests",
@@ -198,7 +198,7 @@ CHECKS = {
              "Inv_C12_InSlot (offset < 256 and offset + width <= 256 when the width is known) evaluated by LayoutTrace.tla "
              "on every successful analysis of every corpus, in particular mask-and-shift programs with shift amounts and "
              "mask positions from {0, 8, 248, 255, 256, 257, 300, 2^32, 2^64-1, 2^64, 2^255, 2^256-1} through SHR/SHL/SAR/"
-             "DIV/MUL, SIGNEXTEND with every boundary constant in either position, nested packed idioms and mutated real contracts. Lift.tla's InWord is evaluated on every term LiftGen enumerates after the real lifting passes ran on it (Inv_C12_InSlot/lift), including positions that leave the word; packed-dataflow programs (fields with holes, shared values packed again high up in other slots, reads that cut fields) and bulk copies of computed constant size extend the generated layouts.",
+             "DIV/MUL, SIGNEXTEND with every boundary constant in either position, nested packed idioms and mutated real contracts. Lift.tla's InWord is evaluated on every term LiftGen enumerates after the real lifting passes ran on it (Inv_C12_InSlot/lift), including positions that leave the word; packed-dataflow programs (fields with holes, shared values packed again high up in other slots, reads that cut fields) and bulk copies of computed constant size extend the generated layouts. PackedMerge.tla / PackedTrace.tla check on every enumerated pair of packed encodings that the spans the real merge returns stay within the inputs' extent and that every piece it places in a span's variable lies within that span's width (Inv_C12_InSlot/packed-merge).",
         note="Width is defined for every AbiType of known width.",
         technique="TLA+ layout well-formedness invariants; TLC trace validation",
         ref="DESIGN.md §4 C12"),
